@@ -691,6 +691,10 @@ func (p *parser) failAt(fail bool, pos position, want string) {
 		if pos.offset > p.maxFailPos.offset {
 			p.maxFailPos = pos
 			p.maxFailExpected = p.maxFailExpected[:0]
+		} else if len(p.maxFailExpected) == 0 {
+			// first failure recorded, at offset 0: take its line and column (they
+			// differ from the initial 1:1 when the input starts with a newline)
+			p.maxFailPos = pos
 		}
 
 		if p.maxFailInvertExpected {
